@@ -50,4 +50,15 @@ CLAIMED['C15'] = {
   'technique': 'Coq proofs (induction on byte strings / Data trees, tokenizer invariants) + regenerated escape tables + differential correspondence incl. malformed stream and sanitizer build',
 }
 
+CLAIMED['C10'] = {
+  'text': 'Model Lifecycle.v: (a) the API as a sequential machine (INSTANTIATED/INITIALIZED/flags, lazily created queues, step/receive/cancel/reset/destroy with an oracle for the chart), (b) the timer-thread teardown protocol as a two-thread small-step system, (c) the two statements of cancel() against enqueueing threads. 13 theorems, unbounded: the step() results of every chart and call sequence are accepted by the automaton of the documented regular language; FINISHED absorbing; cancel leads to FINISHED with every exit handler once in reverse order and never blocks; for the repaired variant reset = fresh, receive/cancel safe in every state, teardown terminates under every schedule (strict measure + no reachable dead state); the three pinned defects are _refuted with witnesses that the check replays. GenFlags.v (flag values of both engines and InterpreterState) is regenerated every run. Correspondence: all API sequences up to length 4/6 from 4 warm-up prefixes on 6 charts x 2 engines in forked children, forced teardown and cancel-race schedules.',
+  'note': 'Trusted: Coq kernel (closed), extraction, Lifecycle.v as hand model, per-chart oracle tables, vd_lifecycle.cpp and the schedule controller. Assumed about libevent: loop entry clears the break flag; only a running loop is woken by loopbreak. Not carried: reset()/destruction concurrent with a running step() (a data race by inspection), wall-clock bounds, invoker threads (C11).',
+  'technique': 'Coq proofs (automaton invariant over all call sequences; invariants and measures over all schedules) + regenerated flag table + API-sequence correspondence and forced-schedule replay',
+}
+CLAIMED['C11'] = {
+  'text': 'Model Invoke.v: macrostep-end invoke/uninvoke bookkeeping of both engines, the parent/child small-step system over the plain-bool flags, SCXMLIOProcessor target routing, finalize/autoforward on dequeue. 19 theorems: bookkeeping exact for every sequence of macrostep-end configurations; done.invoke at most once and only for a child that finished alone (the literal iff and the stricter no-event-after-uninvoke-begins are _refuted with benign race schedules, the proved form names the ordering condition); nothing is sent after uninvoke returns; no deadlock; child events reach the parent once, in send order; routing sound and complete; finalize before match. Pinned defects _refuted with witnesses. Correspondence: forced replay of all race signatures of the model schedules (<= 4/6 context switches) on parent/child chart pairs, both engines, inline and file children, routing probes, bookkeeping compared on every run; thorough adds nested pairs and TSan runs.',
+  'note': 'Trusted: Coq kernel (closed), extraction, Invoke.v as hand model (flag accesses atomic and sequentially consistent, one invocation at a time), vd_invoke.cpp, vd_sched.h. Data races on the bool flags are reported by TSan as supporting evidence, not carried by the model. Teardown termination inside uninvoke is bounded (64 states).',
+  'technique': 'Coq proofs (invariants over all interleavings of the parent/child model, induction over macrostep sequences) + forced-schedule replay on the real invoker',
+}
+
 NOT_APPLICABLE = {p: _PENDING for p in ['C%02d' % i for i in range(1, 21)] if p not in CLAIMED}
